@@ -62,3 +62,6 @@ def run(repo, run, tier):
             run.report("C11.2", fc.rel, fc.attr_nodes["tableau_intermediate"],
                        "the stability function has a pole in the closed left half-plane (Q(-z) is not Hurwitz)",
                        qual=name, text="%s poles of R" % name)
+    # 'an ACCEPTED step never increases |y|' presupposes that accepted means solved: the acceptance logic of C02.4, re-judged here
+    from .c02 import newton
+    newton(repo, run, rule_id="C11.3")
